@@ -1,5 +1,6 @@
 pub mod core;
 pub mod pay;
+pub mod hist;
 pub mod c01;
 pub mod c02;
 pub mod c03;
